@@ -261,6 +261,9 @@ def check(ctx):
             if v == 0:
                 raise c.ToolError("vacuity: path %s never exercised" % k)
     ctx.extra["tails"]["design_conformance"] = {"steps": info3["replayed"], "mismatches": info3["drift"]}
+    if info3["slow_dropped"] and not ctx.violations:
+        raise c.ToolError("%d deviating tail scenarios were not validated (more than --max-slow) and the validated ones were accepted: "
+                          "the bounded-exhaustive claim cannot be made" % info3["slow_dropped"])
     if not ctx.violations:
         if info3["tail_alone_runs"] == 0 or info3["latched_suffix_runs"] == 0 or info3["claimed_tails"] == 0:
             raise c.ToolError("vacuity: no tail-alone / latched suffix runs in the tails part")
